@@ -212,6 +212,14 @@ def cases(ctx):
     sz2 = copy.deepcopy(sz)
     sz2["ctcs"][0] = ("c0", spec.OP("IMPLIES", spec.T("Masse-Prüfung"), spec.T("B")))
     yield "casefold-operand", sz, sz2
+    # names differing only in the spelling of a number, in one group (ties of any "natural" ordering); groups of more than
+    # 256 children; cardinalities whose hashes collide in CPython (hash(-1) == hash(-2), hash(n) == hash(n + 2**61 - 1))
+    twins.extend(gen.big_models())
+    twins.append(dict(root=F("P", [R(1, 2, [F("v3"), F("v03"), F("v\u0663")]), R(0, 1, [F("ch1"), F("ch01")])]), ctcs=[]))
+    for a, b in [((1, -1), (1, -2)), ((0, 2), (2**61 - 1, 2)), ((1, 3), (1, 3 + 2**61 - 1)), ((1, 2), (1, 2 + 2**61 - 1))]:
+        ma = dict(root=F("P", [R(a[0], a[1], [F("X"), F("Y"), F("Z")]), R(0, 1, [F("O")])]), ctcs=[])
+        mb = dict(root=F("P", [R(b[0], b[1], [F("X"), F("Y"), F("Z")]), R(0, 1, [F("O")])]), ctcs=[])
+        yield "edit-card-hash-collision", ma, mb
     for m in twins:
         yield "twins-self", m, copy.deepcopy(m)
         for k in range(6):
@@ -276,6 +284,12 @@ def run(ctx):
         except Exception as e:  # noqa: BLE001
             rep, extra = None, None
             irep = f"(crash {spec.exn_name(e)})"
+        if label == "edit-card-hash-collision" and rep is not None:
+            # CPython's int hash collides on these bounds by construction (hash(-1) == hash(-2), period 2**61 - 1); the
+            # model's hash is structural.  Equal hashes of UNEQUAL objects are no concern of C20: compare everything else
+            def drop(r):
+                return [x for x in r if not (isinstance(x, list) and x and str(x[0]) in ("hash_eq", "relations_hash_eq"))]
+            irep, mrep = sx.dumps(drop(rep)), sx.dumps(drop(sx.loads(mrep)))
         st.record(label, req, irep, mrep, nontrivial=spec.spec_size(a["root"]) >= 2)
         if rep is None:
             st.oracle_fail(label, req, "raises", irep)
